@@ -825,17 +825,40 @@ class C09(Spec):
                 break
         else:
             cst = [drive_engine.sched_spec(r, dates), {"a": "SelectAll"}, {"a": "WeighEqually"}, {"a": "Rebalance"}]
-        if r.random() < 0.2:
+        lev_kid = i % 12 == 7
+        if lev_kid:
+            # a levered / short child definition on a price path with a shock sized around its break-even: backtested on its own
+            # it may go bankrupt (flagged, liquidated, its algos no longer run, the index stays where it is) - the index the
+            # sub-strategy carries under a parent, produced by the library's own paper run of it, has to do the same
+            bp = drive_engine.gen_bankrupt_plan(r, tier)
+            fspec, fired = bp["feed"], {k2: v2 for k2, v2 in bp["fired"].items() if k2.startswith("price_shock")}
+            dates, tickers = fspec["dates"], fspec["tickers"]
+            ndates, ntick, risk = len(dates), len(tickers), False
+
+            def _w(node):
+                for a in node.get("algos", []):
+                    if a.get("a") == "WeighSpecified" and tickers[0] in a["weights"]:
+                        return a["weights"]
+                for c in node.get("children", []):
+                    if c["k"] == "S":
+                        w = _w(c)
+                        if w:
+                            return w
+                return None
+
+            cst = [r.choice([{"a": "RunOnDate", "dates": [dates[0]]}, {"a": "RunDaily"}, {"a": "RunMonthly", "kw": {"run_on_first_date": True}}]), {"a": "WeighSpecified", "weights": _w(bp["tree"])}, {"a": "Rebalance"}]
+            fired["levered_child_definition"] = 1
+        if r.random() < 0.2 and not lev_kid:
             # the child's run ends with a change that nothing in its own stack delivers (a contribution booked after the last
             # rebalance): the refresh after the run is the runner's job, for the stand-alone backtest and for the paper copy alike
             cst = cst + [{"a": "CapitalFlow", "args": [r.choice([1000.0, 25000.0, 2e5, 500.0])]}]  # (contributions only: a fixed withdrawal would drain a live child that its parent funds with little)
             fired["child_run_ends_with_pending_flow"] = 1
         child = {"k": "S", "name": "kid", "cls": "Strategy", "fi": False, "how": "list", "children": [], "algos": cst}
-        if r.random() < 0.4:
+        if r.random() < 0.4 and not lev_kid:
             names = r.sample(tickers, r.randint(1, len(tickers)))
             child["children"] = [{"k": "X", "name": t, "cls": "Security", "mult": 1.0, "decl": r.choice(["str", "obj"])} for t in names]
             drive_engine._restrict(child, names)
-        if r.random() < 0.25 and not risk:
+        if r.random() < 0.25 and not risk and not lev_kid:
             # three levels: the child allocates between its own sub-strategies and may pick them by *their* price indices
             # (inside the child's paper copy those grandchildren need their own paper copies to carry an index at all)
             gap = drive_engine.max_gap_days(dates)
